@@ -2,6 +2,7 @@ package checks
 
 import (
 	"fmt"
+	"github.com/trustbloc/sidetree-go/pkg/patch"
 	"strings"
 
 	"github.com/trustbloc/sidetree-go/pkg/versions/1_0/docvalidator/didvalidator"
@@ -362,6 +363,7 @@ func runC13(r *fw.Runner) {
 			c13Run(c, cases)
 		})
 	}
+	r.Case("go-typed-values", func(c *fw.Case) { c13Typed(c) })
 	r.Case("lists-and-uris", func(c *fw.Case) {
 		var cases []labelled
 		for _, act := range []string{"remove-public-keys", "remove-services"} {
@@ -423,6 +425,12 @@ func runC13(r *fw.Runner) {
 			labelled{"replace/foreign-member-id-null", map[string]interface{}{"action": "replace", "document": map[string]interface{}{"publicKeys": []interface{}{baseKey(c.Rng, "k")}, "id": nil}}, false},
 			labelled{"replace/foreign-member-context-null", map[string]interface{}{"action": "replace", "document": map[string]interface{}{"services": []interface{}{baseService("s1")}, "@context": nil}}, false},
 			labelled{"replace/foreign-member-aka-null", map[string]interface{}{"action": "replace", "document": map[string]interface{}{"publicKeys": []interface{}{baseKey(c.Rng, "k")}, "alsoKnownAs": nil}}, false},
+			labelled{"add-services/endpoint-list-object-then-bad-uri", gen.PAddServices(map[string]interface{}{"id": "s1", "type": "t", "serviceEndpoint": []interface{}{map[string]interface{}{"uri": "https://ok.example"}, "not a uri"}}), false},
+			labelled{"add-services/endpoint-list-object-then-empty-string", gen.PAddServices(map[string]interface{}{"id": "s1", "type": "t", "serviceEndpoint": []interface{}{map[string]interface{}{"uri": "https://ok.example"}, ""}}), false},
+			labelled{"add-services/endpoint-list-uri-object-uri", gen.PAddServices(map[string]interface{}{"id": "s1", "type": "t", "serviceEndpoint": []interface{}{"https://a.example", map[string]interface{}{"uri": "https://ok.example"}, "https://b.example"}}), true},
+			labelled{"add-services/endpoint-fragment-bad-escape", gen.PAddServices(map[string]interface{}{"id": "s1", "type": "t", "serviceEndpoint": "https://example.com/path#%zz"}), false},
+			labelled{"add-services/endpoint-fragment-ok", gen.PAddServices(map[string]interface{}{"id": "s1", "type": "t", "serviceEndpoint": "https://example.com/path#section-2"}), true},
+			labelled{"add-services/endpoint-fragment-control-char", gen.PAddServices(map[string]interface{}{"id": "s1", "type": "t", "serviceEndpoint": "https://example.com/path#a\x7fb"}), false},
 			labelled{"replace/foreign-member-with-empty-name", map[string]interface{}{"action": "replace", "document": map[string]interface{}{"publicKeys": []interface{}{baseKey(c.Rng, "k")}, "": []interface{}{}}}, false},
 			labelled{"replace/only-keys", map[string]interface{}{"action": "replace", "document": map[string]interface{}{"publicKeys": []interface{}{baseKey(c.Rng, "k")}}}, true},
 			labelled{"replace/only-services", map[string]interface{}{"action": "replace", "document": map[string]interface{}{"services": []interface{}{baseService("s1")}}}, true},
@@ -491,6 +499,29 @@ func runC13(r *fw.Runner) {
 				}
 			}
 		})
+	}
+}
+
+// c13Typed: patch values assembled in Go instead of decoded from JSON - a []string where the JSON model has a list of strings. Whatever
+// the validator makes of the Go type, it does not accept content it would refuse as JSON.
+func c13Typed(c *fw.Case) {
+	for _, tc := range []struct {
+		name string
+		p    patch.Patch
+	}{
+		{"add-also-known-as/go-string-slice-with-bad-uri", patch.Patch{"action": patch.AddAlsoKnownAs, "uris": []string{":abc"}}},
+		{"add-also-known-as/go-string-slice-duplicate", patch.Patch{"action": patch.AddAlsoKnownAs, "uris": []string{"https://a.example", "https://a.example"}}},
+		{"remove-also-known-as/go-string-slice-with-bad-uri", patch.Patch{"action": patch.RemoveAlsoKnownAs, "uris": []string{"::", "https://a.example"}}},
+		{"remove-public-keys/go-string-slice-bad-id", patch.Patch{"action": patch.RemovePublicKeys, "ids": []string{"bad id"}}},
+		{"remove-services/go-string-slice-empty-id", patch.Patch{"action": patch.RemoveServiceEndpoints, "ids": []string{""}}},
+	} {
+		c.Count("labelled-invalid", 1)
+		c.Count("go-typed-values", 1)
+		c.Evals(1)
+		c.Sig(tc.name)
+		if err := patchvalidator.Validate(tc.p); err == nil {
+			c.Failf("label:"+tc.name, map[string]interface{}{"case": tc.name, "patch": fmt.Sprintf("%#v", tc.p)}, "%s: a patch whose list is a Go []string with content that is refused as JSON was accepted", tc.name)
+		}
 	}
 }
 
